@@ -766,6 +766,11 @@ def real_method_checks():
 # ----------------------------------------------------------------------------------------
 # driver
 # ----------------------------------------------------------------------------------------
+def _shard(n, base):
+    """few big shards when there are many cases (coqc start-up dominates otherwise)"""
+    return max(base, min(1200, -(-n // 32)))
+
+
 def _safe(ctx, group, desc, fn, *args):
     """run one pipeline; a conversion that raises on a generated input is a failing input"""
     try:
@@ -830,7 +835,7 @@ def run(ctx):
     canary_desc = {'nodes': [['a', {'name': 'lr', 'k': [1]}], ['b', {}]], 'edges': [[0, 1]], 'cyclic': False, 'odd': False}
     cases.append(nx_pipeline(canary_desc, tamper=True)[0])
     ctx.canaries += 1
-    res = ctx.coq_cases('nx_roundtrip', REQ, NX_FN, cases, 5, case_ty=NX_TY, shard=150, preamble=PRE)
+    res = ctx.coq_cases('nx_roundtrip', REQ, NX_FN, cases, 5, case_ty=NX_TY, shard=_shard(len(cases), 150), preamble=PRE)
     if res[-1][1] is False and res[-1][4] is False:
         ctx.canaries_caught += 1
     for (desc, facts), rr in zip(metas, res[:-1]):
@@ -854,7 +859,7 @@ def run(ctx):
         case, facts = out
         cases.append(case)
         metas.append((desc, facts))
-    res = ctx.coq_cases('opt_roundtrip', REQ, OPT_FN, cases, 5, case_ty=OPT_TY, shard=150, preamble=PRE)
+    res = ctx.coq_cases('opt_roundtrip', REQ, OPT_FN, cases, 5, case_ty=OPT_TY, shard=_shard(len(cases), 150), preamble=PRE)
     for (desc, facts), rr in zip(metas, res):
         ctx.count('opt_roundtrip', key=desc, nontrivial=(facts['n'] >= 2 and any(desc['parents'])), nodes=facts['n'],
                   cyclic=desc['cyclic'], odd=desc['odd'])
@@ -874,7 +879,7 @@ def run(ctx):
         case, facts = out
         cases.append(case)
         metas.append((desc, facts))
-    res = ctx.coq_cases('dumb', REQ, DUMB_FN, cases, 2, case_ty=DUMB_TY, shard=150, preamble=PRE)
+    res = ctx.coq_cases('dumb', REQ, DUMB_FN, cases, 2, case_ty=DUMB_TY, shard=_shard(len(cases), 150), preamble=PRE)
     for (desc, facts), rr in zip(metas, res):
         ctx.count('dumb', key=desc, nontrivial=(facts['n'] >= 2 and any(desc['parents'])), nodes=facts['n'])
         _flag(ctx, 'dumb', desc, rr, ['DumbNetworkxAdapter out-and-back differs from the model',
@@ -893,7 +898,7 @@ def run(ctx):
         for step, c in zip(('adapt', 'restore'), two):
             cases.append(c)
             metas.append((desc, sub, step, facts))
-    res = ctx.coq_cases('direct', REQ, DIRECT_FN, cases, 2, case_ty=DIRECT_TY, shard=200, preamble=PRE)
+    res = ctx.coq_cases('direct', REQ, DIRECT_FN, cases, 2, case_ty=DIRECT_TY, shard=_shard(len(cases), 200), preamble=PRE)
     for (desc, sub, step, facts), rr in zip(metas, res):
         case = {'graph': desc, 'domain_subclass': sub, 'step': step}
         ctx.count('direct', key=(desc, sub, step), nontrivial=(facts['n'] >= 2 and any(desc['parents'])), nodes=facts['n'],
@@ -912,7 +917,7 @@ def run(ctx):
         case, facts = out
         cases.append(case)
         metas.append((desc, facts))
-    res = ctx.coq_cases('identity', REQ, IDENT_FN, cases, 1, case_ty=IDENT_TY, shard=200, preamble=PRE)
+    res = ctx.coq_cases('identity', REQ, IDENT_FN, cases, 1, case_ty=IDENT_TY, shard=_shard(len(cases), 200), preamble=PRE)
     for (desc, facts), rr in zip(metas, res):
         ctx.count('identity', key=desc, nontrivial=len(desc['nodes']) >= 1)
         if not rr[0] or not facts['same']:
@@ -929,7 +934,7 @@ def run(ctx):
     canary_call = {'kind': 'ANx', 'adapting': True, 'args': [['g', 'KOpt', 3]], 'kwargs': [], 'raw': ['g', 'KDom', 4]}
     cases.append(run_call(canary_call, tamper=True)[0])
     ctx.canaries += 1
-    res = ctx.coq_cases('calls', REQ, CALL_FN, cases, 2, case_ty='call_obs', shard=250, preamble=PRE)
+    res = ctx.coq_cases('calls', REQ, CALL_FN, cases, 2, case_ty='call_obs', shard=_shard(len(cases), 250), preamble=PRE)
     if res[-1] == (False, False):
         ctx.canaries_caught += 1
     for (desc, facts), rr in zip(metas, res[:-1]):
@@ -953,7 +958,7 @@ def run(ctx):
     canary_reg = {'ops': [['reg', ['p', ['f', 0]]]], 'query': ['m', ['f', 0]], 'decorator': True}
     cases.append(run_registry(canary_reg, tamper=True)[0])
     ctx.canaries += 1
-    res = ctx.coq_cases('registry', REQ, REG_FN, cases, 2, case_ty=REG_TY, shard=300, preamble=PRE)
+    res = ctx.coq_cases('registry', REQ, REG_FN, cases, 2, case_ty=REG_TY, shard=_shard(len(cases), 300), preamble=PRE)
     if res[-1] == (False, False):
         ctx.canaries_caught += 1
     for (desc, facts), rr in zip(metas, res[:-1]):
